@@ -37,6 +37,10 @@ func buildInput(shape string, n, salt int) []byte {
 			return append(sps, pps...)
 		}
 		return append([]byte{0, 0, 1, 0x65}, pat(n, salt+2)...)
+	case "obu_frame_only":
+		// one OBU_FRAME with a size field and nothing else (no temporal delimiter, no sequence header)
+		out := append([]byte{0x32}, leb(n)...)
+		return append(out, pat(n, salt)...)
 	case "obu_two":
 		// a frame-header OBU whose transmitted size is n bytes (header + n-1 payload), then a small frame OBU
 		if n < 1 {
